@@ -160,6 +160,8 @@ pub struct Pat {
     /// order in which the named arguments are rendered (indices into the list of present
     /// named args); empty = canonical order
     pub arg_order: Vec<usize>,
+    /// render the argument list without blanks around `=` and after `,` (`"a",callback=|lex| 1`)
+    pub tight: bool,
     /// render callback positionally (`#[regex("..", cb)]`) instead of `callback = cb`
     pub cb_positional: bool,
     /// raw callback expression overriding the rendered one (L-level only)
@@ -170,7 +172,7 @@ impl Pat {
     pub fn new(kind: PatKind, lit: Lit, variant: usize) -> Pat {
         Pat {
             kind, lit, ignore_case: false, priority: None, allow_greedy: None, cb: None, variant,
-            arg_order: vec![], cb_positional: false, cb_text: None,
+            arg_order: vec![], tight: false, cb_positional: false, cb_text: None,
         }
     }
     pub fn token(text: &str, variant: usize) -> Pat {
@@ -301,8 +303,9 @@ impl Def {
     fn pat_args(&self, leaf: usize) -> String {
         let p = &self.pats[leaf];
         let mut out = p.lit.render();
+        let sep = if p.tight { "," } else { ", " };
         if let (Some(cb), true) = (&p.cb, p.cb_positional) {
-            out.push_str(", ");
+            out.push_str(sep);
             out.push_str(&cb_expr_of(p, cb, &self.name, leaf));
         }
         let named = Self::named_args(p, &self.name, leaf);
@@ -312,8 +315,12 @@ impl Def {
             (0..named.len()).collect()
         };
         for i in order {
-            out.push_str(", ");
-            out.push_str(&named[i]);
+            out.push_str(sep);
+            if p.tight {
+                out.push_str(&named[i].replacen(" = ", "=", 1));
+            } else {
+                out.push_str(&named[i]);
+            }
         }
         out
     }
@@ -414,7 +421,7 @@ impl Def {
                 "lit": p.lit.to_json(), "ignore_case": p.ignore_case, "priority": p.priority,
                 "allow_greedy": p.allow_greedy, "variant": p.variant,
                 "cb": p.cb.as_ref().map(|c| json!({"ret": c.ret.name(), "inline": c.inline, "bump": c.bump, "salt": c.salt, "target": c.target})),
-                "arg_order": p.arg_order, "cb_positional": p.cb_positional, "cb_text": p.cb_text,
+                "arg_order": p.arg_order, "tight": p.tight, "cb_positional": p.cb_positional, "cb_text": p.cb_text,
             })).collect::<Vec<_>>(),
             "variants": self.variants.iter().map(|v| match v { VarKind::Unit => "unit", VarKind::Slice => "slice", VarKind::U64 => "u64" }).collect::<Vec<_>>(),
             "error": match self.error { ErrKind::Unit => "unit", ErrKind::Custom => "custom", ErrKind::CustomCb => "customcb", ErrKind::CustomCbInline => "customcbinline" },
@@ -447,6 +454,7 @@ impl Def {
                     target: p["cb"]["target"].as_u64().unwrap_or(0) as usize,
                 }) },
                 arg_order: p["arg_order"].as_array().map(|a| a.iter().map(us).collect()).unwrap_or_default(),
+                tight: p["tight"].as_bool().unwrap_or(false),
                 cb_positional: p["cb_positional"].as_bool().unwrap_or(false),
                 cb_text: p["cb_text"].as_str().map(|s| s.to_string()),
             }).collect(),
